@@ -278,7 +278,7 @@ func main() {
 		c.Rule("every session starts with the real client Handshake against a scripted reference MTProxy server (ServerHello + ChangeCipherSpec + application record, digest = HMAC-SHA256(secret, client_random || answer with zeroed random)). " +
 			"(hello) valid answers with final record of {0,1,32,1024,4096,16384,65535} bytes x {0,1,2,15,16} extra handshake records x chunkings {whole, 1-byte, every single split point; thorough: every pair of split points of the 170-byte answer}; " +
 			"server key = secret with each single bit flipped (128), empty, one byte longer; server-side client random with each single bit flipped (256; quick: every 4th), zeroed, timestamp xor undone; zeroed digest; every single-bit flip of the answer on the wire (quick: every 3rd bit). " +
-			"(writes) write sequences: all singles and pairs over {0,1,2,16383,16384,16385,65534,65535,65536,65537,131071} (+1 MiB, 3 MiB+7 as singles and in pairs with 1/65535/65536; quick: pairs over {0,1,16384,65535,65536,65537}), triples over {0,1,65535,65536} (quick: {1,65535,65536}), x Read buffer {7, 4096, 65536, 1 MiB} x connection chunking {whole, 1000-byte}; " +
+			"(writes) write sequences: all singles and pairs over {0,1,2,16383,16384,16385,65534,65535,65536,65537,131071} (thorough: pairs also with 1 MiB and 3 MiB+7; quick: 1 MiB / 3 MiB+7 as singles and in 4 mixed sequences, pairs over {0,1,16384,65535,65536,65537}), triples over {0,1,65535,65536} (quick: {1,65535,65536}), x Read buffer {7, 4096, 65536, 1 MiB} x connection chunking {whole, 1000-byte}; " +
 			"(server records) sequences <=3 over application records of {0,1,16384,65535} bytes with ChangeCipherSpec records interleaved x buffers x chunkings {whole, 1-byte, 7-byte}. " +
 			"Oracle: handshake success implies the consumed answer carries the right digest, and the canonical right answer is accepted; bytes read by the peer (a second FakeTLS and a reference TLS-record parser) equal the bytes written; every record payload <= 65535. distinct = distinct witnesses.")
 		c.Assume("reference server answer and record parser in lib/reftransport written from the MTProxy FakeTLS scheme / RFC 5246 record layer; clock injected through an in-package accessor (VerifNewFakeTLS); uTLS ClientHello generation is not under test; scripted connection reports EOF separately from data")
@@ -339,7 +339,7 @@ func main() {
 		}
 		writeSeqs = append(writeSeqs, []int{1 << 20}, []int{3<<20 + 7}, []int{1, 1 << 20}, []int{65535, 3<<20 + 7, 1}, []int{65536, 1 << 20}, []int{1 << 20, 65535})
 		if c.Thorough() {
-			for _, s := range seqs(sizes, 2) {
+			for _, s := range seqs(append(append([]int(nil), sizes...), 1<<20, 3<<20+7), 2) {
 				if len(s) == 2 {
 					writeSeqs = append(writeSeqs, s)
 				}
